@@ -273,6 +273,11 @@ def dateadd_date_cast(expression: exp.Expression) -> exp.Expression:
     if not isinstance(expression.unit.this, str):
         return expression
 
+    if expression.unit.this.upper() == "QUARTER":
+        # a quarter is three calendar months (the duckdb dialect would render it as 90 days)
+        expression.set("expression", exp.Mul(this=exp.Literal.number(3), expression=exp.Paren(this=expression.expression)))
+        expression.set("unit", exp.Var(this="MONTH"))
+
     if (unit := expression.unit.this.upper()) and unit.upper() not in {"DAY", "WEEK", "MONTH", "YEAR"}:
         return expression
 
